@@ -79,9 +79,15 @@ Definition keys_folded_in (fn : string) : bool :=
   forallb (fun s => negb (String.eqb (site_fn s) fn) || key_ok (site_ix s) (site_key s)) index_sites.
 Definition all_index_keys_folded : bool := forallb (fun s => key_ok (site_ix s) (site_key s)) index_sites.
 Definition entity_adds_guarded : bool := forallb site_guarded index_sites.
-(** every modelled index writer still has at least one site (a vanished site means the model is stale) *)
+(** every modelled index writer still has at least one site, or hands the work to another modelled writer of
+    its class that has one ([add_ents] calling [self.add_ent] per item); a vanished site means the model is stale *)
+Definition has_site (f : string) : bool := existsb (fun s => String.eqb (site_fn s) f) index_sites.
 Definition every_modelled_writer_seen : bool :=
-  forallb (fun f => existsb (fun s => String.eqb (site_fn s) f) index_sites) modelled_index_writers.
+  forallb (fun f => has_site f
+                    || existsb (fun c : string * string =>
+                                  String.eqb (fst c) f && mem (snd c) modelled_index_writers && has_site (snd c))
+                               index_writer_calls)
+          modelled_index_writers.
 (** removal precedes nothing else to check syntactically; balance: functions that re-key an entity both remove and add *)
 Definition rekeys_balanced (fn ix : string) : bool :=
   existsb (fun s => String.eqb (site_fn s) fn && String.eqb (site_ix s) ix && site_add s) index_sites
